@@ -57,7 +57,7 @@ class InfoFilePersister:
                                                            name_too_long)
             trashinfo_path = os.path.join(data.info_dir_path,
                                           trashinfo_basename)
-            if os.path.lexists(path_of_backup_copy(trashinfo_path)):
+            if payload_name_is_taken(path_of_backup_copy(trashinfo_path)):
                 index += 1
                 continue
             try:
@@ -74,6 +74,22 @@ class InfoFilePersister:
                                         "attempt for creating %s failed." % trashinfo_path)
 
             index += 1
+
+
+def payload_name_is_taken(path):  # type: (str) -> bool
+    """
+    Like os.path.lexists(), but an error other than "no such entry" (EIO,
+    EACCES, ELOOP, ...) is raised instead of being read as "the name is free":
+    moving the file onto a payload that is there but could not be seen would
+    overwrite it.
+    """
+    try:
+        os.lstat(path)
+    except OSError as e:
+        if e.errno in (errno.ENOENT, errno.ENOTDIR):
+            return False
+        raise
+    return True
 
 
 def create_trashinfo_basename(basename, suffix, name_too_long):
